@@ -151,6 +151,32 @@ def run(res, ctx):
                         diff = C.compare_scan(r, model[i], C.blacklist_ids())
                         if diff and ("real_crashes" in diff):
                             res.break_("correspondence:crashes", {"program": src, "diff": diff})
+        # ---- corpus: every parsable .py file of /repo through the full model (all plugins) and real bandit
+        files = sorted(glob.glob(os.path.join(C.REPO, "examples", "*.py")))
+        if thorough:
+            files += sorted(glob.glob(os.path.join(C.REPO, "bandit", "**", "*.py"), recursive=True)) + sorted(glob.glob(os.path.join(C.REPO, "tests", "**", "*.py"), recursive=True))
+        n_corpus = 0
+        for f in files:
+            data = open(f, "rb").read()
+            try:
+                req = C.scan_request(data, fname=f)
+            except SyntaxError:
+                continue
+            r = C.real_scan(f)
+            n_corpus += 1
+            res.case(("corpus", f), bool(r["findings"]))
+            if r["errors"] or r["skipped"]:
+                res.violation("a check raised on a file of bandit's own repository", {"file": f, "errors": r["errors"][:3], "skipped": r["skipped"]})
+            if d is not None:
+                m = d.ask(req)
+                if "error" in m:
+                    res.break_("driver-error", m["error"])
+                else:
+                    rr = {"findings": r["findings"], "errors": C.crashed_tests(r["errors"])}
+                    diff = C.compare_scan(rr, m, C.blacklist_ids())
+                    if diff:
+                        res.break_("correspondence:corpus", {"file": f, "diff": diff})
+        res.extra["corpus_files"] = n_corpus
     finally:
         scratch.close()
         if d is not None:
